@@ -343,7 +343,9 @@ def run(ctx):
              'label bookkeeping + generated conditional distribution over Q with the checked Gauss-Jordan inverse); compared: labels and values '
              'of the normal conditions, conditional mean and covariance (1e-9 relative + 64 u cond(S22) |S12| |S22^-1| |z|), free columns and '
              'their order, the output frame symbolically (fixed columns, order, back-transform by label) or the error class.  Per model also: '
-             'empty dict, unknown label, all columns (outside the property\'s quantifier; compared with the model\'s error only)')
+             'empty dict, unknown label alone (both ValueError), a known plus an unknown label (the unknown one is silently ignored), all columns '
+             '(ValueError): outside the property\'s quantifier, compared with the model only.  The oracle keys F11:series-conditions-raise and '
+             'F19:condition-scores-relabelled-positionally (both fixed in /repo: baa4f86, fa9ce3f) are kept so that a regression is reported under the same keys')
     ctx.trusted += ['stats.norm.ppf / stats.norm.cdf, the fitted univariate cdf / percent_point, np.random.multivariate_normal (shape only) and '
                     'np.linalg.inv (instantiated by the checked rational inverse) are oracles',
                     'the list-of-lists rational matrix operations of Model/MatQ.v denote the mathcomp operations of Spec/Schur.v (not proved; '
